@@ -131,7 +131,7 @@ impl<'a, P: for<'p> Protocol<'p>> DemoWriter<'a, P> {
             let delta = &self.delta;
             with_packer(&mut self.buf, |p| delta.write(P::obj_size, p)).map(|_| ())
         };
-        if packed.is_err() {
+        if packed.is_err() || !crate::Writer::fits_chunk(&self.buf) {
             self.builder = self.snap.clone().recycle();
             return Err(WriteError::TooLargeSnap);
         }
@@ -160,6 +160,9 @@ impl<'a, P: for<'p> Protocol<'p>> DemoWriter<'a, P> {
     pub fn write_msg(&mut self, msg: &<P as Protocol<'_>>::Game) -> Result<(), WriteError> {
         self.buf.clear();
         with_packer(&mut self.buf, |p| msg.encode(p)).map_err(|_| WriteError::TooLongNetMsg)?;
+        if !self.inner.fits_message(&self.buf) {
+            return Err(WriteError::TooLongNetMsg);
+        }
         self.inner.write_message(self.buf.as_slice())?;
         self.buf.clear();
         Ok(())
